@@ -129,7 +129,9 @@ func (d *decoderSet) decoderCallsIn(fn *ssa.Function) []decoderCall {
 		isD := false
 		name := core.CalleeName(call)
 		if f := cc.StaticCallee(); f != nil {
-			if !d.member[f] {
+			// the standard library's exact readers count as decoding primitives:
+			// they report a short input, so their error must be propagated too
+			if k := core.FuncKey(f); !d.member[f] && k != "io.ReadFull" && k != "io.ReadAtLeast" {
 				continue
 			}
 			isD = true
